@@ -17,6 +17,12 @@ static void ghost_init (void)
 #else
   __CPROVER_assume (CAP_M >= 1 && CAP_M <= CFG_CAP_BOUND);
 #endif
+#if defined (FACT_M_LT_N) && FACT_M_LT_N
+  __CPROVER_assume (CAP_M < CAP_N);       /* configuration class: the other container's inline capacity is smaller */
+#endif
+#if defined (FACT_M_GT_N) && FACT_M_GT_N
+  __CPROVER_assume (CAP_M > CAP_N);       /* ... larger */
+#endif
   /* allocator requirement: max_size () * sizeof (T) is representable; CBMC objects are below 2^55 bytes */
   __CPROVER_assume (ALLOC_MAX <= CFG_ALLOC_MAX_BOUND && ALLOC_MAX <= SIZE_T_MAX_CFG);
 #ifndef KF_INLINE_EXCEEDS_MAX_SIZE
@@ -32,23 +38,29 @@ static void ghost_init (void)
 }
 
 /* a container object with inline capacity n (symbolic), on the heap so that its size can be symbolic */
-static struct svb *mk_svb_n (unsigned int n)
-{
-  struct svb *s = malloc (sizeof (struct svb) + (unsigned long) n * ESZ);
-  __CPROVER_assume (s != 0);
-  unsigned long cap = nondet_ulong (), size = nondet_ulong ();
-  __CPROVER_assume (cap >= n && size <= cap && cap <= CFG_ALLOC_MAX_BOUND);
-  SZ (s) = size; CAP (s) = cap; AID (s) = nondet_int ();
-  if (cap == n)
-    DATA (s) = STORAGE (s);
-  else
-    {
-      Elem *blk = malloc (cap * ESZ);
-      __CPROVER_assume (blk != 0);
-      DATA (s) = blk;
-    }
-  return s;
+#define DEFINE_MK_SVB(NAME, T) \
+static T *NAME (unsigned int n) \
+{ \
+  T *s = malloc (sizeof (T) + (unsigned long) n * ESZ); \
+  __CPROVER_assume (s != 0); \
+  unsigned long cap = nondet_ulong (), size = nondet_ulong (); \
+  __CPROVER_assume (cap >= n && size <= cap && cap <= CFG_ALLOC_MAX_BOUND); \
+  SZ (s) = size; CAP (s) = cap; AID (s) = nondet_int (); \
+  if (cap == n) \
+    DATA (s) = STORAGE (s); \
+  else \
+    { \
+      Elem *blk = malloc (cap * ESZ); \
+      __CPROVER_assume (blk != 0); \
+      DATA (s) = blk; \
+    } \
+  return s; \
 }
+DEFINE_MK_SVB (mk_svb_n, struct svb)
+#ifdef CFG_HAS_M
+DEFINE_MK_SVB (mk_svbM_n, struct svbM)
+#define mk_svbM() mk_svbM_n (CAP_M)
+#endif
 #define mk_svb() mk_svb_n (CAP_N)
 
 /* raw memory for a container that is about to be constructed (all fields arbitrary) */
